@@ -73,6 +73,7 @@ type obs struct {
 	Kind string // ok | limit | other
 	Err  string
 	L    []ser
+	Seek []string // failed Seek probes
 }
 
 func f64(h io.Writer, f float64) { u64(h, math.Float64bits(f)) }
@@ -335,6 +336,8 @@ func gObs(o obs) string {
 		return "(ObsOk " + gSeries(o.L) + ")"
 	case "limit":
 		return "ObsErrLimit"
+	case "skip":
+		return "ObsSkip"
 	}
 	return "ObsErrOther"
 }
@@ -378,6 +381,71 @@ func (r *rig) serve(q storage.SampleAndChunkQueryable, ext labels.Labels, limit,
 	}, limit, 4, maxBytes)
 }
 
+// seekProbe checks chunkenc.Iterator.Seek of a client-side series against the sample list
+// obtained with Next alone: a fresh iterator, `skip` calls of Next, then Seek(t) must stand on
+// the first sample with timestamp >= t that is not before the current one, and Next must
+// continue from there.
+func seekProbe(s storage.Series, all []smp, skip int, t int64) string {
+	it := s.Iterator(nil)
+	pos := -1
+	for i := 0; i < skip && i < len(all); i++ {
+		if it.Next() == chunkenc.ValNone {
+			return fmt.Sprintf("Next #%d returned ValNone early", i+1)
+		}
+		pos = i
+	}
+	want := pos
+	if want < 0 {
+		want = 0
+	}
+	for want < len(all) && all[want].T < t {
+		want++
+	}
+	vt := it.Seek(t)
+	if want >= len(all) {
+		if vt != chunkenc.ValNone {
+			return fmt.Sprintf("Seek(%d) after %d Next: got a sample, want ValNone", t, skip)
+		}
+		return ""
+	}
+	if vt == chunkenc.ValNone {
+		return fmt.Sprintf("Seek(%d) after %d Next: ValNone, want sample at %d (err %v)", t, skip, all[want].T, it.Err())
+	}
+	var got []smp
+	switch vt {
+	case chunkenc.ValFloat:
+		ts, v := it.At()
+		got = append(got, smp{ts, 0, math.Float64bits(v)})
+	case chunkenc.ValHistogram:
+		ts, h := it.AtHistogram(nil)
+		got = append(got, smp{ts, 1, digestH(h)})
+	case chunkenc.ValFloatHistogram:
+		ts, h := it.AtFloatHistogram(nil)
+		got = append(got, smp{ts, 2, digestFH(h)})
+	}
+	if it.AtT() != got[0].T {
+		return fmt.Sprintf("Seek(%d): AtT %d differs from At %d", t, it.AtT(), got[0].T)
+	}
+	rest, err := drain(it)
+	if err != nil {
+		return fmt.Sprintf("Seek(%d) then Next: %v", t, err)
+	}
+	got = append(got, rest...)
+	if len(got) != len(all)-want {
+		return fmt.Sprintf("Seek(%d) after %d Next: %d samples from %d on, want %d from %d on", t, skip, len(got), got[0].T, len(all)-want, all[want].T)
+	}
+	for i := range got {
+		if got[i] != all[want+i] {
+			return fmt.Sprintf("Seek(%d) after %d Next: sample %d is %v, want %v", t, skip, i, got[i], all[want+i])
+		}
+	}
+	return ""
+}
+
+// probes of the current case (set by runCase): random source and the query range
+var probeRand *gen.Rand
+var probeMint, probeMaxt int64
+
 func (r *rig) read(c remote.ReadClient, q *prompb.Query, sortSeries bool) obs {
 	ss, err := c.Read(context.Background(), q, sortSeries)
 	if err != nil {
@@ -386,9 +454,54 @@ func (r *rig) read(c remote.ReadClient, q *prompb.Query, sortSeries bool) obs {
 		}
 		return obs{Kind: "other", Err: err.Error()}
 	}
-	l, err := drainSet(ss)
+	return r.readSet(ss)
+}
+
+// readSet drains a client-side series set (with Seek probes when probeRand is set).
+func (r *rig) readSet(ss storage.SeriesSet) obs {
+	var err error
+	var l []ser
+	var seekErr []string
+	var it chunkenc.Iterator
+	for ss.Next() {
+		s := ss.At()
+		it = s.Iterator(it)
+		sm, derr := drain(it)
+		if derr != nil {
+			err = derr
+			break
+		}
+		l = append(l, ser{lblPairs(s.Labels()), sm})
+		if probeRand != nil {
+			for k := 0; k < 3; k++ {
+				t := probeRand.Range(0, 3000)
+				if len(sm) > 0 {
+					t = sm[probeRand.Intn(len(sm))].T + probeRand.PickI64(-1, 0, 0, 1)
+				}
+				if t < probeMint { // Seek below the querier's mint is not what the engine does
+					t = probeMint
+				}
+				skip := 0
+				if probeRand.Chance(1, 2) {
+					skip = probeRand.Intn(len(sm) + 1)
+				}
+				if e := seekProbe(s, sm, skip, t); e != "" {
+					seekErr = append(seekErr, e)
+				}
+			}
+		}
+	}
+	if err == nil {
+		err = ss.Err()
+	}
 	if err != nil {
+		if strings.Contains(err.Error(), "exceeded sample limit") {
+			return obs{Kind: "limit", Err: err.Error()}
+		}
 		return obs{Kind: "other", Err: err.Error(), L: l}
+	}
+	if len(seekErr) > 0 {
+		return obs{Kind: "ok", L: l, Seek: seekErr}
 	}
 	// a second Next after exhaustion must stay false
 	if ss.Next() {
@@ -654,6 +767,7 @@ type desc struct {
 	Sampled  string   `json:"sampled"`
 	Chunked  string   `json:"chunked"`
 	Shape    string   `json:"shape"`
+	Querier  string   `json:"querier"`
 	Corpus   string   `json:"corpus,omitempty"`
 	Untrim   bool     `json:"untrimmed_chunks"`
 }
@@ -672,7 +786,7 @@ func main() {
 	seen0 := map[string]bool{}
 
 	runCorpus(f, meta, cf, rg, &id0, seen0)
-	nStores := f.Count(20, 1200)
+	nStores := f.Count(20, 600)
 	perStore := 8
 	id := id0
 	seen := seen0
@@ -1027,11 +1141,34 @@ func runCase(f gallina.Flags, meta *gallina.Meta, cf *gallina.CaseFile, rg *rig,
 	if err != nil {
 		panic(err)
 	}
+	probeRand, probeMint, probeMaxt = r, mint, maxt
 	sampled := rg.read(rg.sampled, pq, sortSeries)
 	chunked := rg.read(rg.chunked, pq, sortSeries)
 	frames, err := rg.rawFrames(pq)
 	if err != nil {
 		panic(fmt.Sprintf("raw frames: %v", err))
+	}
+	// the querier of read.go on top of one of the two clients, configured with the same
+	// external labels as the serving side (skipped when an external label name also occurs in
+	// stored series: then the two sides legitimately talk about different series)
+	qchunked := r.Bool()
+	querier := obs{Kind: "skip"}
+	if ext.Get("job") == "" {
+		cl := rg.sampled
+		if qchunked {
+			cl = rg.chunked
+		}
+		qq, err := remote.NewSampleAndChunkQueryableClient(cl, ext, nil, true, nil).Querier(mint, maxt)
+		if err != nil {
+			panic(err)
+		}
+		probeRand = nil
+		querier = rg.readSet(qq.Select(ctx, sortSeries, nil, ms...))
+		qq.Close()
+	}
+	var mnames []string
+	for _, m := range ms {
+		mnames = append(mnames, gStr(m.Name))
 	}
 
 	// ---- classification
@@ -1106,15 +1243,64 @@ func runCase(f gallina.Flags, meta *gallina.Meta, cf *gallina.CaseFile, rg *rig,
 			why = append(why, "chunked-unexplained")
 		}
 	}
+	if querier.Kind != "skip" {
+		hit(true, "querier-path")
+		wantQ := canon(direct)
+		add := func(k string) {
+			for _, w := range why {
+				if w == k {
+					return
+				}
+			}
+			why = append(why, k)
+		}
+		switch {
+		case !qchunked && limit > 0 && total > limit:
+			if querier.Kind != "limit" {
+				add("querier-limit-not-enforced")
+			}
+		case querier.Kind == "ok" && equalSeries(canon(querier.L), wantQ):
+		case querier.Kind == "ok" && qchunked && split && equalSeries(canon(glue(querier.L)), wantQ):
+			add("chunked-series-split-across-frames")
+		case querier.Kind == "ok" && !qchunked && hasNegZero(direct) && equalSeries(canon(querier.L), posZero(wantQ)):
+			add("sampled-negative-zero")
+		case querier.Kind == "ok" && !qchunked && equalSeries(canon(querier.L), canon(dropMaxT(wantQ))):
+			add("sampled-maxint64-dropped")
+		default:
+			add("querier-unexplained")
+		}
+	}
 	shape := "ok"
 	if len(why) > 0 {
 		shape = strings.Join(why, "+")
 		meta.Hit("fails:" + shape)
 	}
+	// Seek probes are judged here (the model covers iteration with Next only)
+	if strings.Contains(shape, "sampled-maxint64-dropped") {
+		sampled.Seek = nil // Seek does find the sample Next drops: the same finding seen from the other side
+	}
+	if len(sampled.Seek) > 0 {
+		// known shape: a series with floats AND histograms; Seek's "no-op" exit has already moved
+		// the cursor of the other value type from -1 to 0, so its first sample is skipped
+		if mixed {
+			why = append(why, "sampled-seek-mixed-series")
+		} else {
+			why = append(why, "sampled-seek")
+		}
+	}
+	if len(chunked.Seek) > 0 {
+		why = append(why, "chunked-seek")
+	}
+	if len(sampled.Seek)+len(chunked.Seek) > 0 {
+		meta.Hit("fails:seek")
+		meta.GoViol = append(meta.GoViol, gallina.GoViolation{ID: fmt.Sprint(*id), Shape: strings.Join(why, "+"),
+			What: fmt.Sprintf("Seek on the client-side iterator disagrees with Next: sampled %q chunked %q", sampled.Seek, chunked.Seek)})
+	}
 
-	cf.Add(fmt.Sprintf("mkCase %s %s %s %d %d %s %s\n %s\n %s\n %s\n %s\n %s",
+	cf.Add(fmt.Sprintf("mkCase %s %s %s %d %d %s %s\n %s\n %s\n %s\n %s\n %s\n %s %s %s",
 		gallina.Z(int64(*id)), gallina.Z(mint), gallina.Z(maxt), maxBytes, limit, gallina.Bool(sortSeries), gLabels(lblPairs(ext)),
-		gSeries(direct), gCSeries(chunks), gObs(sampled), gFrames(frames), gObs(chunked)))
+		gSeries(direct), gCSeries(chunks), gObs(sampled), gFrames(frames), gObs(chunked),
+		gallina.Bool(qchunked), gallina.List(mnames), gObs(querier)))
 	so := sampled.Kind
 	if sampled.Err != "" {
 		so += ": " + sampled.Err
@@ -1124,7 +1310,8 @@ func runCase(f gallina.Flags, meta *gallina.Meta, cf *gallina.CaseFile, rg *rig,
 		co += ": " + chunked.Err
 	}
 	meta.Case(*id, desc{Store: st.desc, StoreIdx: si, Mint: mint, Maxt: maxt, Matchers: mstr, MaxBytes: maxBytes, Limit: limit,
-		Sort: sortSeries, Ext: ext.String(), Series: len(direct), Samples: total, Frames: len(frames), Sampled: so, Chunked: co, Shape: shape, Corpus: corpus, Untrim: untrimmed})
+		Sort: sortSeries, Ext: ext.String(), Series: len(direct), Samples: total, Frames: len(frames), Sampled: so, Chunked: co, Shape: shape, Corpus: corpus, Untrim: untrimmed,
+		Querier: fmt.Sprintf("%s over chunked=%v %s", querier.Kind, qchunked, querier.Err)})
 	meta.Evaluations++
 	*id++
 	if *id%perShard == 0 {
